@@ -356,6 +356,29 @@ fn c05_case<K: Kmer>(c: &mut Case, fc: &FCase, pass_targets: &[usize]) -> Result
         c.count("runs_with_256_passes", (np == 256) as u64);
     }
     c.count("spy_runs", pass_counts_seen.len() as u64);
+    // same sequences, same memory unit, but a label type of another size (so another pass plan) right
+    // after a multi-pass run: the plan must be recomputed, not carried over
+    if let Some(unit) = pass_targets.iter().rev().filter_map(|p| unit_for_passes(kmer_mem, *p)).next() {
+        let input8: Vec<(DnaString, Exts, u8)> = fc.seqs.iter().map(|s| (DnaString::from_bytes(&s.bases), Exts::new(s.exts), s.label as u8)).collect();
+        let inputw: Vec<(DnaString, Exts, [u64; 5])> = fc.seqs.iter().map(|s| (DnaString::from_bytes(&s.bases), Exts::new(s.exts), [s.label as u64; 5])).collect();
+        verif_hooks::set_filter_mem_unit(Some(unit));
+        let (a, _): (BoomHashMap2<K, Exts, u16>, Vec<K>) = filter_kmers(&input8, &Box::new(CountFilter::new(1)), fc.stranded, false, 1);
+        let pa = verif_hooks::filter_pass_trace().len();
+        let (b, _): (BoomHashMap2<K, Exts, u16>, Vec<K>) = filter_kmers(&inputw, &Box::new(CountFilter::new(1)), fc.stranded, false, 1);
+        let pb = verif_hooks::filter_pass_trace().len();
+        let (a2, _): (BoomHashMap2<K, Exts, u16>, Vec<K>) = filter_kmers(&input8, &Box::new(CountFilter::new(1)), fc.stranded, false, 1);
+        verif_hooks::set_filter_mem_unit(None);
+        for (name, tab) in [("u8 labels", &a), ("40-byte labels", &b), ("u8 labels after 40-byte labels", &a2)] {
+            ensure!(tab.len() == t.len(), "{} (unit {}): table has {} k-mers, the input has {} distinct ones", name, unit, tab.len(), t.len());
+            for (key, e, cnt) in tab.iter() {
+                let ks = kstr(key);
+                let row = t.get(&ks).ok_or_else(|| format!("{}: foreign key {}", name, ascii(&ks)))?;
+                ensure!(*cnt as usize == row.obs.len().min(65535) && masks_agree(&ks, fc.stranded, row.mask, e.val), "{} (unit {}): row of {} is wrong", name, unit, ascii(&ks));
+            }
+        }
+        c.count("label_size_switches", 1);
+        c.count("label_size_switches_changing_pass_count", (pa != pb) as u64);
+    }
 
     // the library's own summarizers
     let input = dna_seqs(&fc.seqs);
@@ -507,6 +530,13 @@ fn c05_saturation(c: &mut Case) -> Result<(), String> {
     }
     seqs.push(Seq { bases: read.clone(), exts: 0, label: 0 });
     seqs.push(Seq { bases: other.clone(), exts: 0, label: 1 });
+    // a LATE observation of the abundant k-mer that brings a new right neighbour
+    {
+        let mut late = vec![b; 5];
+        late.push((b + 1 + c.rng.below(3) as u8) & 3);
+        late.extend(c.rng.bases(3, 4));
+        seqs.push(Seq { bases: late, exts: 0, label: 2 });
+    }
     let input = dna_seqs(&seqs);
     let (idx, all): (BoomHashMap2<K, Exts, u16>, Vec<K>) =
         filter_kmers(&input, &Box::new(CountFilter::new(65535)), stranded, true, 1);
@@ -633,5 +663,6 @@ pub fn run_c05(ctx: &Ctx) {
         ctx.require("hook_free_multi_pass_runs", 1);
         ctx.require("saturated_counts_checked", 1);
         ctx.require("cases_style_b_unique_ids", 50);
+        ctx.require("label_size_switches_changing_pass_count", 100);
     }
 }
